@@ -26,7 +26,7 @@ PU(ut, tt) == [made |-> ut.made, first |-> ut.first, last |-> ut.last, t |-> tt[
 EmitT == PrintT(<<"T", ToJson([rev |-> rev, wit |-> PW(wit[1], tobj), upd |-> PU(upd[1], tobj), act |-> last',
                                pwit |-> PW(wit'[1], tobj'), pupd |-> PU(upd'[1], tobj')])>>)
 
-\* ---- two-step sequences: a FAILING first call (which must leave everything as it was) followed by Apply on the
+\* ---- two-step sequences: a FAILING first call (which must leave everything as it was), or a successful Prepend, followed by Apply on the
 \* same real objects; the harness constructs the pre-state once and runs both calls, so state left behind by the
 \* failed call (e.g. a polluted product memo) shows in the second result
 VARIABLE first
@@ -35,7 +35,7 @@ Gen2Init == GenInit /\ first = [rev |-> <<>>, wit |-> PW(wit[1], tobj), upd |-> 
 Gen2Next == \/ /\ nstep = 0
                /\ \/ \E w \in W, k \in U : Apply(w, k)
                   \/ \E k \in U, g \in 0..MaxRev, h \in 0..MaxRev, p \in BOOLEAN : Prepend(k, g, h, p) \/ PrependForeign(k, g, h, p)
-               /\ Failing(last'.res)
+               /\ (Failing(last'.res) \/ (last'.op = "prepend" /\ last'.res = "ok"))      \* or a successful Prepend: what it memoises shows in the Apply
                /\ first' = [rev |-> rev, wit |-> PW(wit[1], tobj), upd |-> PU(upd[1], tobj), act |-> last']
             \/ /\ nstep = 1 /\ \E w \in W, k \in U : Apply(w, k)
                /\ UNCHANGED first
